@@ -55,7 +55,7 @@ def handle (j : PJson) : PJson :=
     | _, _ => bad "sub: a/b"
   | "isoFormat" =>
     match dtOf j "dt" with
-    | some t => mk [("text", .str (String.ofList (isoFormatWith (j.intD "off") t))),
+    | some t => mk [("text", .str (String.ofList (isoFormatUs (j.intD "off") t (j.intD "us")))),
                     ("date", .str (String.ofList (isoFormatDate t)))]
     | none => bad "isoFormat: dt"
   | "isoParse" =>
